@@ -248,7 +248,7 @@ def reference_negotiation(header):
     best = {}
     for element in header.split(","):
         pieces = [p.strip(" \t") for p in element.split(";")]
-        mt = pieces[0]
+        mt = pieces[0].lower()      # type, subtype and parameter names are case-insensitive (RFC 7231 3.1.1.1)
         q = 1.0
         for p in pieces[1:]:
             if p[:2].lower() == "q=":
@@ -262,10 +262,14 @@ def reference_negotiation(header):
     return {t for t, q in best.items() if q == top}
 
 
-def check_header(elements, ows, param=None):
+def check_header(elements, ows, param=None, case=None):
     from curies.mapping_service.utils import handle_header
 
     header = render(elements, ows, param)
+    if case == "upper":
+        header = header.upper()
+    elif case == "title":
+        header = header.title()
     allowed = reference_negotiation(header)
     try:
         got = handle_header(header)
@@ -469,6 +473,13 @@ def run_unit(unit, ctx):
                         ctx.count("headers_with_media_type_parameter")
                         if f2:
                             ctx.violation("C18/" + f2[0][0].replace("accept/", "accept/with-media-type-parameter/"), f2[0][1], {"kind": "accept", "elements": [list(e) for e in combo], "ows": list(ows), "param": "charset=utf-8"})
+                    if n <= 2 and not fails:
+                        # the same header written in upper case / title case (media types and the weight's name are case-insensitive)
+                        for case in ("upper", "title"):
+                            f3, h3 = check_header(combo, ows, None, case)
+                            ctx.count("headers_in_other_letter_case")
+                            if f3:
+                                ctx.violation("C18/" + f3[0][0].replace("accept/", "accept/letter-case/"), f3[0][1], {"kind": "accept", "elements": [list(e) for e in combo], "ows": list(ows), "case": case})
                     ctx.count("headers")
                     ctx.count("evaluations")
                     ctx.state(hash(header))
@@ -535,7 +546,9 @@ def replay(case):
         _SERVICES.pop(case["conv"], None)
         f = check_after_mutation(case["conv"])
     elif k == "accept":
-        f, _ = check_header(tuple(tuple(e) for e in case["elements"]), tuple(case["ows"]), case.get("param"))
+        f, _ = check_header(tuple(tuple(e) for e in case["elements"]), tuple(case["ows"]), case.get("param"), case.get("case"))
+        if case.get("case"):
+            f = [(s_.replace("accept/", "accept/letter-case/"), m_) for s_, m_ in f]
         if case.get("param"):
             f = [(s_.replace("accept/", "accept/with-media-type-parameter/"), m_) for s_, m_ in f]
     elif k == "kwargs":
